@@ -512,12 +512,13 @@ func (o *OpenAPI3Importer) loadTypeSchema(name string, schema *openapi3.Schema) 
 			if subschema.Ref != "" {
 				o.refMap[subschema.Ref] = false
 			}
-			defer setDefined(subschema.Ref)
 
 			subType, err := o.loadTypeSchema("", subschema.Value)
 			if err != nil {
 				return nil, err
 			}
+			// the part is complete: a later part may refer to the same schema again (allOf: [B, C] with C: allOf: [B])
+			setDefined(subschema.Ref)
 
 			if subObj, ok := subType.(*StandardType); ok {
 				if len(obj.Properties) == 0 {
